@@ -271,3 +271,117 @@ Example parse_line_examples :
   parse_line [13; 10] = CEmpty /\
   parse_line [88; 89; 90; 13; 10] = CUnknown.
 Proof. vm_compute. repeat split; reflexivity. Qed.
+
+(** * The session on a raw byte stream ([run_stream]) *)
+
+Lemma run_stream_bytes fl st w : run_stream fl st w = run_bytes fl st [BBytes w].
+Proof.
+  unfold run_stream, run_bytes, read_lines. cbn [expand]. change (frev (@nil N)) with (@nil N).
+  destruct (feed [] w) as [ls p]. cbn [fst expand]. rewrite app_nil_r. reflexivity.
+Qed.
+
+(** The session always ends. *)
+Theorem stream_session_always_ends fl st w : s_state (w_sess (run_stream fl st w)) = Closed.
+Proof. unfold run_stream. rewrite run_app. reflexivity. Qed.
+
+Theorem bytes_session_always_ends fl st bes : s_state (w_sess (run_bytes fl st bes)) = Closed.
+Proof. unfold run_bytes. rewrite run_app. reflexivity. Qed.
+
+(** Never a panic, whatever the bytes. *)
+Theorem stream_never_panics fl st w r : In r (w_out (run_stream fl st w)) -> is_panic r = false.
+Proof. apply total_no_panic. Qed.
+
+(** Replies are caused by lines: at most one per complete line (plus the greeting); none for
+    the unterminated rest, none after the session has ended; and - [one_reply_per_line] - exactly
+    one per line for as long as the session is open. *)
+Lemma out_len_step fl w e :
+  is_line_event e = true -> (length (w_out (wstep fl w e)) <= S (length (w_out w)))%nat.
+Proof.
+  intros He. destruct e; try discriminate He; cbn [wstep]; unfold do_cmd;
+    (destruct (is_open w); [|lia]);
+    match goal with |- context [step ?a ?b ?c ?d] => destruct (step a b c d) as [[s1 r1] st1] end;
+    (destruct (w_wfail w); cbn [w_out]; [lia|rewrite app_length; cbn [length]; lia]).
+Qed.
+
+Lemma out_len_lines fl evs : forall w,
+  (forall e, In e evs -> is_line_event e = true) ->
+  (length (w_out (run fl w evs)) <= length (w_out w) + length evs)%nat.
+Proof.
+  induction evs as [|e evs IH]; intros w H; [cbn; lia|].
+  rewrite run_cons. specialize (IH (wstep fl w e) (fun e' H' => H e' (or_intror H'))).
+  pose proof (out_len_step fl w e (H e (or_introl eq_refl))). cbn [length]. lia.
+Qed.
+
+Theorem stream_reply_per_line fl st w :
+  (length (w_out (run_stream fl st w)) <= S (count_lf w))%nat.
+Proof.
+  unfold run_stream, read_lines. rewrite run_app.
+  pose proof (feed_count w []) as Hc. destruct (feed [] w) as [ls p]. cbn [fst] in *.
+  cbn [run fold_left wstep w_out].
+  pose proof (out_len_lines fl (map ELine ls) (init_world st)) as H.
+  rewrite map_length, Hc in H. cbn [w_out init_world length] in H. apply H.
+  intros e He. apply in_map_iff in He. destruct He as (l & <- & _). reflexivity.
+Qed.
+
+(** A closed session is silent and inert. *)
+Theorem closed_is_inert fl w c : is_open w = false -> do_cmd fl w c = w.
+Proof. intros H. unfold do_cmd. rewrite H. reflexivity. Qed.
+
+(** An arbitrary byte stream changes the store only through a QUIT line processed in
+    TRANSACTION state. *)
+Theorem stream_store_only_quit fl st w :
+  (forall pre e post, map ELine (read_lines w) ++ [EEof] = pre ++ e :: post ->
+                      commits (run fl (init_world st) pre) e = false) ->
+  w_store (run_stream fl st w) = st.
+Proof.
+  intros H. unfold run_stream. rewrite (no_quit_no_delete fl _ _ H). cbn [w_store init_world].
+  assert (Hn : forall evs st0, (forall e, In e evs -> ext_step st0 e = st0 /\ forall s, ext_step s e = s) ->
+                               fold_left ext_step evs st0 = st0).
+  { induction evs as [|e evs IH]; intros st0 He; [reflexivity|]. cbn [fold_left].
+    destruct (He e (or_introl eq_refl)) as [-> _]. apply IH. intros e' H'.
+    destruct (He e' (or_intror H')) as [_ A]. split; apply A. }
+  apply Hn. intros e He. apply in_app_or in He. destruct He as [He|[<-|[]]].
+  - apply in_map_iff in He. destruct He as (l & <- & _). split; reflexivity.
+  - split; reflexivity.
+Qed.
+
+(** In particular a stream with no QUIT line at all - garbage, a dialogue cut anywhere - leaves
+    the store alone. *)
+Corollary stream_without_quit_keeps_store fl st w :
+  (forall l, In l (read_lines w) -> is_quit (parse_line l) = false) ->
+  w_store (run_stream fl st w) = st.
+Proof.
+  intros H. apply stream_store_only_quit. intros pre e post E.
+  assert (Hin : In e (map ELine (read_lines w) ++ [EEof])) by (rewrite E; apply in_or_app; right; left; reflexivity).
+  unfold commits. destruct (s_state (w_sess (run fl (init_world st) pre))); try reflexivity.
+  apply in_app_or in Hin. destruct Hin as [Hin|[<-|[]]]; [|reflexivity].
+  apply in_map_iff in Hin. destruct Hin as (l & <- & Hl). cbn [ev_cmd]. apply H. exact Hl.
+Qed.
+
+(** Cutting a stream anywhere: the replies to the complete lines of the prefix are a prefix
+    of the replies to the whole stream (the session is causal). *)
+Lemma feed_fst_app a : forall cur b, exists more, fst (feed cur (a ++ b)) = fst (feed cur a) ++ more.
+Proof.
+  intros cur b. rewrite feed_app. destruct (feed cur a) as [ls1 p1]. destruct (feed (frev p1) b) as [ls2 p2].
+  exists ls2. reflexivity.
+Qed.
+
+Theorem stream_prefix_causal fl st a b :
+  exists more,
+    w_out (run fl (init_world st) (map ELine (read_lines (a ++ b)))) =
+    w_out (run fl (init_world st) (map ELine (read_lines a))) ++ more.
+Proof.
+  unfold read_lines. destruct (feed_fst_app a [] b) as [ls2 E]. rewrite E, map_app, run_app.
+  set (w1 := run fl (init_world st) (map ELine (fst (feed [] a)))).
+  clearbody w1. clear E. revert w1. induction (map ELine ls2) as [|e evs IH]; intros w1.
+  - exists []. rewrite app_nil_r. reflexivity.
+  - rewrite run_cons. destruct (IH (wstep fl w1 e)) as [m Hm]. rewrite Hm.
+    assert (exists m0, w_out (wstep fl w1 e) = w_out w1 ++ m0) as [m0 ->].
+    { destruct e; cbn [wstep with_store w_out]; try (exists []; rewrite app_nil_r; reflexivity).
+      1-2: unfold do_cmd; destruct (is_open w1); [|exists []; rewrite app_nil_r; reflexivity];
+           match goal with |- context [step ?a ?b ?c ?d] => destruct (step a b c d) as [[s1 r1] st1] end;
+           destruct (w_wfail w1); cbn [w_out]; [exists []; rewrite app_nil_r; reflexivity|eexists; reflexivity].
+      destruct (is_open w1); cbn [w_out]; [|exists []; rewrite app_nil_r; reflexivity].
+      destruct (w_wfail w1); [exists []; rewrite app_nil_r; reflexivity|eexists; reflexivity]. }
+    exists (m0 ++ m). rewrite app_assoc. reflexivity.
+Qed.
